@@ -38,6 +38,8 @@ def run_one(m):
             p = subprocess.run([os.path.join(ROOT, "check"), m["check"], "--tier", "quick"], capture_output=True, text=True, timeout=1500, env=env, cwd=ROOT)
             lines = [l for l in p.stdout.splitlines() if l.startswith("  #")]
             res = {"exit": p.returncode, "first": lines[0][4:220] if lines else "", "tests": tests, "what": m["what"], "check": m["check"]}
+            if p.returncode not in (0, 1) or os.environ.get("SM_TAIL"):
+                res["tail"] = (p.stdout + p.stderr)[-1500:]
         except subprocess.TimeoutExpired:
             res = {"exit": "timeout", "tests": tests, "what": m["what"], "check": m["check"]}
         res["expected"] = m.get("expect", "violation")
@@ -58,6 +60,8 @@ def main():
             k, r = f.result()
             results[k] = r
             print(k, json.dumps(r)[:330], flush=True)
+            if "tail" in r:
+                print(r["tail"], flush=True)
     path = os.path.join(ROOT, "seeded", "SELFMUT.json")
     old = json.load(open(path)) if os.path.exists(path) else {}
     old.update(results)
